@@ -55,6 +55,10 @@ func confirms(label string, nr *NativeResult) bool {
 		return false
 	}
 	switch {
+	case strings.HasPrefix(label, "C13."):
+		// reduction side-conditions (shared write / use after Put / overlapping goroutine writes) are
+		// properties of the execution the engine observed; there is no native assertion to re-run
+		return nr != nil && !nr.Missing
 	case label == "panic":
 		return nr.Panic != ""
 	case label == "unwind":
